@@ -253,6 +253,15 @@ def run_shard(spec):
                     if not st.is_error:
                         viol("returned.not_error", "failing query %r returned a state not marked as error" % q)
                     check_failure(q, st.metadata, where_r, viol, mech)
+                    # a sub-query started by the failing command was evaluated, whether it failed or not: it is recorded
+                    subs = [p[1] for p in out.path if p[0] == "sub"]
+                    last = len(pq.segments[-1].query) - 1
+                    if subs and out.path[0] == ("action", last) and pq.segments[-1].filename is None:
+                        got_sub = [x.get("query") for x in (st.metadata.get("direct_subqueries") or [])]
+                        env.count("failing_sub_queries_checked")
+                        if subs[0] not in got_sub:
+                            viol("%s.direct_subqueries_of_a_failing_command" % where_r,
+                                 "failing query %r: the sub-query %r evaluated by its last command is not recorded (recorded: %r)" % (q, subs[0], got_sub))
                 if cache is not None and st is not None:
                     # which key the failure's metadata is filed under is not part of the statement: canonical or as typed
                     cm = cache.get_metadata(canon)
@@ -395,6 +404,14 @@ def run_shard(spec):
         g.avoid_none_default = True
         for _ in range(spec["n"]):
             q = g.top()
+            if rnd.random() < 0.04:
+                # a query typed in a non-canonical spelling whose LAST action fails (also downstream of a volatile step and
+                # after the failing command has run a sub-query of its own)
+                q = "%s/%s" % (rnd.choice(["lit-%41/cat-x~.y", "lit-a%20b", "one/vol/cat-%7Ex", "lit-%41/vol", "one/add-%31"]),
+                               rnd.choice(["boom", "needs", "sub-one~Iboom", "add-x", "nosuchcmd", "cat-~X~/one/boom~E"]))
+                env.count("non_canonical_failing_last_action")
+                handle(mode, q)
+                continue
             if rnd.random() < 0.04:
                 # a failure followed by many steps that are never executed: the message has to survive all of them
                 g._numeric_prefix = False
